@@ -323,6 +323,7 @@ class Exec:
             self.facts = []
             self.effects = []
             env = dict(args)
+            self._fnstack = [self.fn]
             for p, d in self.fn.defaults.items():
                 if p not in env:
                     env[p] = self.ev(d, {})
@@ -1485,6 +1486,46 @@ def _sh_sum(ex, node, x, start=0):
     raise SymExError("sum of symbolic container")
 
 
+class TypeTag(str):
+    pass
+
+
+def _sh_type(ex, node, x):
+    if isinstance(x, SymArray):
+        return "ndarray"
+    if isinstance(x, bool):
+        return ("fn", "bool")
+    if isinstance(x, Cx):
+        return ("fn", "complex")
+    if isinstance(x, sp.Expr):
+        return ("fn", "int") if x.is_Integer else ("fn", "float")
+    if isinstance(x, str):
+        return ("fn", "str")
+    if isinstance(x, tuple):
+        return ("fn", "tuple")
+    if isinstance(x, list):
+        return ("fn", "list")
+    if isinstance(x, dict):
+        return ("fn", "dict")
+    if x is None:
+        return "NoneType"
+    return type(x).__name__
+
+
+def _sh_any(ex, node, x):
+    for v in x:
+        if ex.truth(v, node):
+            return True
+    return False
+
+
+def _sh_all(ex, node, x):
+    for v in x:
+        if not ex.truth(v, node):
+            return False
+    return True
+
+
 def _sh_isnan(ex, node, x):
     return False
 
@@ -1560,7 +1601,7 @@ SHIMS = {
     "abs": _sh_abs, "float": _sh_float, "int": _sh_int, "complex": _sh_complex, "len": _sh_len, "range": _sh_range,
     "prange": _sh_range, "max": _sh_max, "min": _sh_min, "isinstance": _sh_isinstance, "sum": _sh_sum, "print": _sh_print,
     "tuple": _sh_tuple, "list": _sh_list, "dict": _sh_dict, "zip": _sh_zip, "enumerate": _sh_enumerate, "str": _sh_str,
-    "bool": _sh_bool, "reversed": _sh_reversed, "sorted": _sh_sorted,
+    "bool": _sh_bool, "reversed": _sh_reversed, "sorted": _sh_sorted, "type": _sh_type, "any": _sh_any, "all": _sh_all,
 }
 
 _NP = {
